@@ -18,6 +18,7 @@ from .engine import Engine, Path, Stats, solve
 from .proxies import SBool, SReal, lift, mvals, model_env, numeval, zval
 
 ROOT = os.path.dirname(os.path.dirname(os.path.abspath(__file__)))
+OUT = os.environ.get("VERIF_OUT_DIR") or ROOT  # evidence/ and replays/ (override only for experiments against scratch trees)
 MAX_VIOL_PER_LABEL = 2
 
 
@@ -298,7 +299,7 @@ class Case:
             kind = replay[0]
             rec = dict(property=self.prop, case=self.name, label=label, kind=kind, inputs=inputs, detail=detail)
             h = hashlib.sha256(json.dumps(rec, sort_keys=True).encode()).hexdigest()[:16]
-            d = os.path.join(ROOT, "replays", self.prop)
+            d = os.path.join(OUT, "replays", self.prop)
             os.makedirs(d, exist_ok=True)
             fp = os.path.join(d, f"{h}.json")
             with open(fp, "w") as f:
@@ -345,7 +346,7 @@ class Case:
         self._viol_per_label[label] = self._viol_per_label.get(label, 0) + 1
         rec = dict(property=self.prop, case=self.name, label=label, kind=kind, inputs=jsonable(inputs), detail=str(detail)[:1500])
         h = hashlib.sha256(json.dumps(rec, sort_keys=True).encode()).hexdigest()[:16]
-        d = os.path.join(ROOT, "replays", self.prop)
+        d = os.path.join(OUT, "replays", self.prop)
         os.makedirs(d, exist_ok=True)
         fp = os.path.join(d, f"{h}.json")
         with open(fp, "w") as f:
